@@ -112,6 +112,10 @@ pub trait Property {
     fn shrink_iters(_tier: Tier) -> Option<u32> {
         None
     }
+    /// seconds a single case (or shrink candidate) may take before the shard gives up on it
+    fn case_timeout_s(_tier: Tier) -> u64 {
+        300
+    }
 }
 
 // ---------------------------------------------------------------------------------------------
@@ -296,7 +300,53 @@ pub struct ShardResult {
     pub notes: Vec<String>,
 }
 
+static CURRENT_PATH: Mutex<Option<(String, String)>> = Mutex::new(None);
+static CASE_STARTED_MS: std::sync::atomic::AtomicU64 = std::sync::atomic::AtomicU64::new(0);
+static CASE_LIMIT_MS: std::sync::atomic::AtomicU64 = std::sync::atomic::AtomicU64::new(0);
+
+fn now_ms() -> u64 {
+    use std::sync::OnceLock;
+    static T0: OnceLock<Instant> = OnceLock::new();
+    T0.get_or_init(Instant::now).elapsed().as_millis() as u64 + 1
+}
+
+/// Starts the per-case watchdog of a shard: a case (or a shrink candidate) that does not return
+/// within `limit_s` makes the process exit with code 97; the case is in `current_<shard>.json`.
+pub fn start_watchdog(out_dir: &str, shard: u32, profile: &str, limit_s: u64) {
+    *CURRENT_PATH.lock().unwrap() = Some((format!("{out_dir}/current_{shard}.json"), profile.to_string()));
+    CASE_LIMIT_MS.store(limit_s * 1000, std::sync::atomic::Ordering::SeqCst);
+    let _ = now_ms();
+    std::thread::spawn(|| loop {
+        std::thread::sleep(std::time::Duration::from_millis(500));
+        let started = CASE_STARTED_MS.load(std::sync::atomic::Ordering::SeqCst);
+        let limit = CASE_LIMIT_MS.load(std::sync::atomic::Ordering::SeqCst);
+        if started != 0 && limit != 0 && now_ms().saturating_sub(started) > limit {
+            eprintln!("VERIF-WATCHDOG: case exceeded {} s", limit / 1000);
+            std::process::exit(97);
+        }
+    });
+}
+
 pub fn evaluate<P: Property>(case: &P::Case, obs: &mut Obs) -> Outcome {
+    // leave a replayable copy of the case on disk: if the process dies or hangs inside it (also
+    // inside a shrink candidate) the driver finds it there
+    if let Some((path, profile)) = CURRENT_PATH.lock().unwrap().as_ref() {
+        let v = json!({
+            "property": P::ID,
+            "profile": profile,
+            "sig": "process-death-or-hang",
+            "detail": "the shard process died or hung while running this case",
+            "case": serde_json::to_value(case).unwrap(),
+        });
+        let _ = std::fs::write(path, v.to_string());
+    }
+    CASE_STARTED_MS.store(now_ms(), std::sync::atomic::Ordering::SeqCst);
+    let r = evaluate_inner::<P>(case, obs);
+    CASE_STARTED_MS.store(0, std::sync::atomic::Ordering::SeqCst);
+    r
+}
+
+fn evaluate_inner<P: Property>(case: &P::Case, obs: &mut Obs) -> Outcome {
     let r = guarded(|| P::run(case, obs));
     let foreign = take_foreign_panics();
     match r {
@@ -468,6 +518,8 @@ pub fn write_shard_result(ctx: &Ctx, id: &str, res: &ShardResult, wall: f64, met
 
 pub fn shard_main<P: Property>(ctx: &Ctx) {
     let t0 = Instant::now();
+    std::fs::create_dir_all(&ctx.out_dir).ok();
+    start_watchdog(&ctx.out_dir, ctx.shard, &ctx.profile, P::case_timeout_s(ctx.tier));
     let res = run_shard::<P>(ctx);
     let meta = json!({
         "rule": P::rule(),
